@@ -158,6 +158,7 @@ template<class Tag, class AO, class BO> struct OpI {
 
 // X: the same solution through different expression forms (chained products with an unevaluated solve / inv, solves on a square
 // VIEW into a larger stored matrix).  tools/c02.py demands that the groups agree and that the defining equation holds.
+//   J ao n m eps maxit | A | B              conjugate_gradient(eps,maxit): x=solve(A,col0(B),left) ; y=solve(A,col0(B),right) ; X=solve(A,B,left) ; Y=solve(A,trans(B),right)
 //   X tag ao bo n m off | A | B | c | b        groups: y1 ; y2 ; y3 ; y4 ; v1 ; v2 ; w1 ; w2 ; V1 ; V2
 template<class Tag, class AO, class BO> struct OpX {
 	static void run(Ctx& c) {
@@ -216,6 +217,22 @@ template<class AO> struct OpE {
 		matrix<double, AO> A; c.readMat(A, n, n); c.done();
 		symm_eigenvalue_decomposition<matrix<double, AO> > d(A);
 		c.putMat(d.Q()); c.sep(); c.putVec(d.D());
+	}
+};
+template<class AO> struct OpJ {
+	static void run(Ctx& c) {
+		std::size_t n = c.size(), m = c.size(); if (m == 0) throw Bad();
+		double eps = c.num(); std::size_t maxit = c.size();
+		matrix<double, AO> A; c.readMat(A, n, n);
+		matrix<double, row_major> B; c.readMat(B, n, m); c.done();
+		conjugate_gradient tag(eps, (unsigned)maxit);
+		vector<double> b0 = column(B, 0);
+		vector<double> x = solve(A, b0, tag, left());
+		vector<double> y = solve(A, b0, tag, right());
+		matrix<double, row_major> X = solve(A, B, tag, left());
+		matrix<double, row_major> Bt = trans(B);
+		matrix<double, row_major> Y = solve(A, Bt, tag, right());
+		c.putVec(x); c.sep(); c.putVec(y); c.sep(); c.putMat(X); c.sep(); c.putMat(Y);
 	}
 };
 template<class AO> struct OpP {
@@ -280,6 +297,7 @@ static void dispatch(char letter, Ctx& c) {
 	case 'G': sel[0] = c.word(); D<OpG, L<KOri> >::go(c, sel); break;
 	case 'E': sel[0] = c.word(); D<OpE, L<KOri> >::go(c, sel); break;
 	case 'P': sel[0] = c.word(); D<OpP, L<KOri> >::go(c, sel); break;
+	case 'J': sel[0] = c.word(); D<OpJ, L<KOri> >::go(c, sel); break;
 	case 'K': sel[0] = c.word(); sel[1] = c.word(); D<OpK, L<KTri, KOri> >::go(c, sel); break;
 	case 'Z': {
 		std::string tag = c.word(), ao = c.word();
